@@ -479,3 +479,43 @@ pub proof fn lemma_balance_days_valid(y: int, m: int, d: int)
     ensures balance_days(y, m, d) == days_from_civil(y, m, d),
 {
 }
+
+// ---- range helpers shared by units tz, postparse (moved here so that unit greg proves them once) ----
+/// a valid date within +-3e8 days of the epoch has |year| <= 1.4M
+pub proof fn lemma_year_ok(y: int, m: int, d: int)
+    requires valid_ymd(y, m, d), -300_000_000 <= days_from_civil(y, m, d) <= 300_000_000,
+    ensures -1_400_000 <= y <= 1_400_000,
+{
+    assert(days_from_civil(-1_400_000, 1, 1) < -300_000_000);
+    assert(days_from_civil(1_400_000, 12, 31) > 300_000_000);
+    if y < -1_400_000 { lemma_dfc_mono(y, m, d, -1_400_000, 1, 1); }
+    if y > 1_400_000 { lemma_dfc_mono(1_400_000, 12, 31, y, m, d); }
+}
+
+/// BalanceISODate on a valid date with a day shift
+pub proof fn lemma_day_shift(y: int, m: int, d: int, c: int)
+    requires 1 <= m <= 12,
+    ensures balance_days(y, m, d + c) == days_from_civil(y, m, d) + c,
+{
+}
+
+pub proof fn lemma_limits_year(y: int, m: int, d: int)
+    requires valid_ymd(y, m, d), -100_000_001 <= days_from_civil(y, m, d) <= 100_000_000,
+    ensures -271_821 <= y <= 275_760,
+{
+    assert(days_from_civil(-271_821, 1, 1) == -100_000_109);
+    assert(days_from_civil(275_760, 12, 31) == 100_000_109);
+    if y < -271_821 { lemma_dfc_mono(y, m, d, -271_821, 1, 1); }
+    if y > 275_760 { lemma_dfc_mono(275_760, 12, 31, y, m, d); }
+}
+
+/// day number of a valid date with |year| <= 1.4M stays far inside the kernel domain
+pub proof fn lemma_year_days_bound(y: int, m: int, d: int)
+    requires valid_ymd(y, m, d), -1_400_000 <= y <= 1_400_000,
+    ensures -512_100_000 <= days_from_civil(y, m, d) <= 512_100_000,
+{
+    assert(-350_000 <= (y + 3) / 4 <= 350_001);
+    assert(-14_000 <= (y + 99) / 100 <= 14_001);
+    assert(-3_500 <= (y + 399) / 400 <= 3_501);
+}
+
